@@ -37,7 +37,9 @@ def main():
         })
     man = {
         "version": 1,
-        "setup_cmd": "cd lean && lake build",
+        # builds the driver and the theorem modules of the claimed properties (a module of an unclaimed,
+        # unfinished property cannot break the setup); every check rebuilds what it needs anyway
+        "setup_cmd": "cd lean && lake build driver " + " ".join("CoxeterVerif.Props." + k for k in sorted(CLAIMED)),
         "hooks": {
             "guard": "COXETER_VERIF",
             "enable": "no source hooks: the harness observes coxeter in-process from outside (PYTHONPATH=/repo); COXETER_VERIF=1 is exported by ./check but read by nothing in /repo",
